@@ -12,53 +12,37 @@ import (
 )
 
 func init() {
-	vRegister("H_C16_encode", H_C16_encode)
-	vRegister("H_C16_encode_range", H_C16_encode_range)
+	vRegister("H_C16_native_signer", H_C16_native_signer)
 	vRegister("H_C16_cryptosigner", H_C16_cryptosigner)
 	vRegister("H_C16_verify", H_C16_verify)
 	vRegister("H_C16_verify_exact", H_C16_verify_exact)
 }
 
-// every (r,s) in [1,N-1]^2 on every curve is encoded as fixed-width r||s
-func H_C16_encode() {
+// native keys through the public API: any ES algorithm with a key on any of the three curves produces
+// 2n bytes (n from the key's curve order) whose halves are the primitive's (r, s), and its own verifier accepts them
+func H_C16_native_signer() {
 	c := vCurve("curve")
 	n := refOrderSize(c)
-	N := c.Params().N
-	r, s := vBig("r", 528), vBig("s", 528)
-	vAssume(r.Sign() > 0)
-	vAssume(s.Sign() > 0)
-	vAssume(r.Cmp(N) < 0)
-	vAssume(s.Cmp(N) < 0)
-	sig, err := encodeECDSASignature(c, r, s)
-	vAssert("encode: no error for in-range (r,s)", err == nil)
-	vAssert("encode: length is 2*ceil(bitlen(N)/8)", len(sig) == 2*n)
-	vAssume(len(sig) == 2*n)
-	vAssert("encode: first half is r, big endian, left padded", new(big.Int).SetBytes(sig[:n]).Cmp(r) == 0)
-	vAssert("encode: second half is s, big endian, left padded", new(big.Int).SetBytes(sig[n:]).Cmp(s) == 0)
-	// decoding gives the same integers back
-	r2, s2, err2 := decodeECDSASignature(c, sig)
-	vAssert("decode: no error on own output", err2 == nil)
-	vAssume(err2 == nil)
-	vAssert("decode: r round trip", r2.Cmp(r) == 0)
-	vAssert("decode: s round trip", s2.Cmp(s) == 0)
-	vReach("end")
-}
-
-// integers that do not fit n bytes (or are negative) give an error and no bytes
-func H_C16_encode_range() {
-	c := vCurve("curve")
-	n := refOrderSize(c)
-	r, s := vBigSigned("r", 600), vBigSigned("s", 600)
-	sig, err := encodeECDSASignature(c, r, s)
-	fitsR := r.Sign() >= 0 && r.BitLen() <= 8*n
-	fitsS := s.Sign() >= 0 && s.BitLen() <= 8*n
-	if fitsR && fitsS {
-		vAssert("range: fitting integers are encoded", err == nil)
-		vAssert("range: length 2n", len(sig) == 2*n)
-	} else {
-		vAssert("range: negative / oversized integer is an error", err != nil)
-		vAssert("range: no bytes with an error", sig == nil)
+	alg := []Algorithm{AlgorithmES256, AlgorithmES384, AlgorithmES512}[vChoose("alg", 3)]
+	key := vECKeyValid("key", c)
+	vAssume(vOnCurve(&key.PublicKey))
+	signer, err := NewSigner(alg, key)
+	vAssert("native: NewSigner accepts every ES algorithm with every NIST key", err == nil)
+	vAssume(err == nil)
+	content := vBlob("content")
+	sig, err := signer.Sign(vRand(), content)
+	if err != nil {
+		vAssert("native: no bytes with an error", sig == nil)
+		vReach("sign failed")
+		return
 	}
+	vAssert("native: signature is 2n bytes, n from the curve order", len(sig) == 2*n)
+	vAssume(len(sig) == 2*n)
+	digest := vHash(refHashOfAlg(int64(alg)), content)
+	vAssert("native: the halves are the (r, s) the primitive produced", vEcdsaVerdict(&key.PublicKey, digest, new(big.Int).SetBytes(sig[:n]), new(big.Int).SetBytes(sig[n:])))
+	verifier, verr := NewVerifier(alg, &key.PublicKey)
+	vAssume(verr == nil)
+	vAssert("native: the matching verifier accepts it", verifier.Verify(content, sig) == nil)
 	vReach("end")
 }
 
@@ -110,10 +94,8 @@ func H_C16_cryptosigner() {
 	vAssume(len(sig) == 2*n)
 	vAssert("asn1 path: r half", new(big.Int).SetBytes(sig[:n]).Cmp(spy.r) == 0)
 	vAssert("asn1 path: s half", new(big.Int).SetBytes(sig[n:]).Cmp(spy.s) == 0)
-	// byte compatible with the native-key path, which goes through encodeECDSASignature
-	ref, err2 := encodeECDSASignature(c, spy.r, spy.s)
-	vAssume(err2 == nil)
-	vAssert("asn1 path is byte-compatible with the native path", vRopeEq(sig, ref))
+	// byte for byte the RFC 8152 section 8.1 form (reference written with stdlib calls only)
+	vAssert("asn1 path: output is I2OSP(r,n) || I2OSP(s,n)", vRopeEq(sig, append(refFixed(spy.r, n), refFixed(spy.s, n)...)))
 	vReach("end")
 }
 
